@@ -967,7 +967,7 @@ func (g *Gen) History(n int) []string {
 	return ops
 }
 
-// PureHistory draws n units of the property's pure discipline: frame (R N), purge, Capture, Release
+// PureHistory draws n units of the property's discipline without DHCP offers: frame (R N), purge, name update, Capture, Release
 // (no DHCP offers, so the DHCP path of Notify stays silent; the t6 histories cover it).
 func (g *Gen) PureHistory(n int) []string {
 	g.now = 0
@@ -977,9 +977,11 @@ func (g *Gen) PureHistory(n int) []string {
 		switch {
 		case r < 70:
 			ops = append(ops, g.RxOp(), "N")
-		case r < 94:
+		case r < 90:
 			ops = append(ops, fmt.Sprintf("P,%d", g.advance()))
-		case r < 98:
+		case r < 97: // a learned name through one of the five Update*Name methods
+			ops = append(ops, fmt.Sprintf("M,%d,%s,%s", g.Rng.Intn(5), IPTok(g.anyIP()), g.U.Names[g.Rng.Intn(len(g.U.Names))]))
+		case r < 99:
 			ops = append(ops, "C,"+MacTok(g.clientMAC()))
 		default:
 			ops = append(ops, "L,"+MacTok(g.clientMAC()))
@@ -995,6 +997,9 @@ func (sm *Sim) DrainShown(sorted bool, pairs bool) string {
 		sort.SliceStable(l, func(i, j int) bool { return l[i].Addr.IP.Compare(l[j].Addr.IP) < 0 })
 	}
 	s := make([]string, len(l))
+	if pairs { // pairs are compared sorted by address inside one unit
+		sort.SliceStable(l, func(i, j int) bool { return l[i].Addr.IP.Compare(l[j].Addr.IP) < 0 })
+	}
 	for i, n := range l {
 		if pairs {
 			s[i] = IPTok(n.Addr.IP) + "/" + b01(n.Online)
